@@ -6,4 +6,5 @@ CONSTANTS Tabs = {1, 2}
   MaxSteps = 7
   FlagWords = {0, 1, 2, 3, 4, 7}
 INVARIANTS DeadIsEmpty IterInv WellFormed AtMostOnce NoDangling
+CONSTRAINT Bound
 CHECK_DEADLOCK FALSE
